@@ -79,6 +79,7 @@ type Exec struct {
 	obs      uint64
 	Steps    int64 // transitions (hooked operations) in this execution
 	aborted  bool
+	diverged bool // a replayed choice did not fit: the rest of the execution takes default answers
 }
 
 // NondetError is raised (as panic value) if a replayed prefix does not fit the
@@ -110,7 +111,10 @@ func (x *Exec) ChooseCost(kind Kind, n int, costs []int) int {
 	c := 0
 	if i < len(x.prefix) {
 		c = x.prefix[i]
-		if c < 0 || c >= n {
+		if x.diverged {
+			c = 0 // the execution is being wound down after a divergence: default answers
+		} else if c < 0 || c >= n {
+			x.diverged = true
 			panic(NondetError{fmt.Sprintf("point %d: replayed choice %d out of range (kind %s, n=%d)", i, c, KindNames[kind], n)})
 		}
 	}
